@@ -200,4 +200,17 @@ def feeRestartRun : List EvR := [
 example : ((runR (Sys.init 600000 400000 253) feeRestartRun).map (fun s => (s.agreed, s.feeAgreed, s.b.pendingFee, s.b.feerate))) =
     some (true, true, none, 253) := by decide
 
+/-- the writer of seeded change C01-r5 on the model node: the feerate of `pending_update_fee` is written whatever its state -/
+def writtenC01r5 (n : Node) : Node :=
+  { n.written with pendingFee := n.pendingFee.map (fun p => (p.1, FeeState.ofCode (Writer.feeReadState n.isFunder))) }
+
+/-- DROPPING THE FUNDEE'S RemoteAnnounced FEE UPDATE IS NECESSARY (counter-example = the seeded scenario): in the run above with the
+    fundee written by `writtenC01r5` instead, the fundee comes back believing the fee update was committed, signs the funder's next
+    commitment at the new feerate, and the funder — still at the old one — rejects it: `feeAgreed = false`
+    (in the real code: "Invalid commitment tx signature from peer"). -/
+theorem fee_drop_is_necessary :
+    ((runR (Sys.init 600000 400000 253) (feeRestartRun.take 15)).bind (fun s =>
+      runR { s with a := s.a.pause, b := writtenC01r5 s.b, qab := [], qba := [] } (feeRestartRun.drop 16))).map
+      (fun s => (s.feeAgreed, s.b.feerate, s.a.feerate)) = some (false, 1200, 253) := by decide
+
 end Ldk.C01Persist
